@@ -336,15 +336,14 @@ pub fn finish(ctx: &Ctx, level: &str, rule: &str, assumptions: &[&str], parts: V
     for l in &lines {
         println!("{l}");
     }
+    if !unknown.is_empty() {
+        return 1;
+    }
     if !vac.is_empty() {
         for v in &vac {
             eprintln!("MACHINERY: {v}");
         }
         return 2;
     }
-    if !unknown.is_empty() {
-        1
-    } else {
-        0
-    }
+    0
 }
